@@ -3,10 +3,13 @@
    Model: Model/World.v (cache, cache_add / cache_remove, the hooks of the owning collections, get_by_uuid),
    Model/WorldGuard.v (the API typing discipline `op_okb`, pairwise distinct UUIDs; reachable states).
    Invariant: InvDefs.CacheInv, part of WorldInv.InvAll.  Only property theorems here; proofs in
-   Proofs/SetOpsProofs.v, Proofs/ModListProofs.v (preservation), Proofs/WorldInv.v, Proofs/WorldProps.v. *)
+   Proofs/SetOpsProofs.v, Proofs/ModListProofs.v (preservation), Proofs/WorldInv.v, Proofs/WorldProps.v.
+   The World model assumes globally distinct UUIDs; the property only assumes them distinct among the nodes attached to ONE IR
+   ("different IRs may hold nodes with equal UUIDs, e.g. two loads of one file").  The last block of theorems (module Twin, over
+   Model/TwinCache.v: the owning sets' add / discard / ^= on per-IR tables, elements = flattened subtrees) covers that premise. *)
 From Coq Require Import ZArith List Bool.
 From V Require Import Result LazyTree World WorldGuard ForestDefs InvDefs WorldInv WorldProps.
-From V Require ModListProofs ScheduleProofs.
+From V Require ModListProofs ScheduleProofs TwinCache TwinCacheProofs.
 Import ListNotations.
 Open Scope Z_scope.
 
@@ -78,6 +81,111 @@ Example C03_example :
   map (get_by_uuid wb 2) [102; 104; 105; 106; 107; 103] = [Some 2; Some 4; Some 5; Some 6; Some 7; None].
 Proof. vm_compute. repeat split. Qed.
 
+(* ---------- equal UUIDs in different IRs: the per-IR premise (Model/TwinCache.v) ---------- *)
+Module Twin.
+Import TwinCache TwinCacheProofs.
+
+(* every history of add / discard / ^= (the two-pass operator of the code) over any number of IRs, started from empty sets, in which
+   AFTER each call the nodes attached to the IR it was issued on carry pairwise distinct UUIDs (`premise`; nothing is asked of
+   what different IRs hold): every table answers exactly for the nodes attached to its IR, the sets hold no element twice, every
+   element is in at most one set, and no `del cache[uuid]` ever hits a missing key -- at every intermediate state *)
+Theorem C03_per_ir_distinct_uuids_suffice : forall subs ops, run_ok (st0 subs) ops ->
+  all_steps (st0 subs) ops /\ Inv (fst (run (st0 subs) ops)) /\ snd (run (st0 subs) ops) = true.
+Proof.
+  intros subs ops H. split; [exact (run_all_steps ops (st0 subs) (inv_st0 subs) H)|exact (run_from_st0 subs ops H)].
+Qed.
+
+(* what Inv says, spelled out for one IR: get_by_uuid u = Some n  iff  (u, n) is registered by a member of that IR's set *)
+Theorem C03_twin_exact_means : forall s, Inv s -> forall ir u n,
+  lookup s ir u = Some n <-> exists x, In x (members (irs s ir)) /\ In (u, n) (sub s x).
+Proof.
+  intros s [_ H] ir u n. destruct (H ir) as [_ E]. rewrite (E u n). unfold attached. rewrite in_flat_map. reflexivity.
+Qed.
+
+(* add: the premise is exactly "distinct afterwards" (sufficient and necessary); whatever other IRs hold is irrelevant *)
+Theorem C03_twin_add : forall s ir x, Inv s ->
+  (NoDup (map fst (sub s x)) /\
+   (forall y, In y (members (irs s ir)) -> y <> x -> forall u, In u (map fst (sub s x)) -> ~ In u (map fst (sub s y)))
+   -> Inv (fst (add s ir x)) /\ snd (add s ir x) = true) /\
+  (distinct (fst (add s ir x)) ir ->
+   NoDup (map fst (sub s x)) /\
+   (forall y, In y (members (irs s ir)) -> y <> x -> forall u, In u (map fst (sub s x)) -> ~ In u (map fst (sub s y)))).
+Proof.
+  intros s ir x HI. split.
+  - intros [H1 H2]. exact (add_inv s ir x HI H1 H2).
+  - exact (add_premise_necessary s ir x HI).
+Qed.
+
+Theorem C03_twin_discard : forall s ir x, Inv s -> Inv (fst (discard s ir x)) /\ snd (discard s ir x) = true.
+Proof. exact discard_inv. Qed.
+
+(* no leakage: an operation on one IR's set leaves every other IR alone, except the one that loses the moved element *)
+Theorem C03_twin_no_leak :
+  (forall s ir ir' x, ir' <> ir -> irs (fst (discard s ir x)) ir' = irs s ir') /\
+  (forall s ir ir' x, ir' <> ir -> ~ In x (members (irs s ir')) -> irs (fst (add s ir x)) ir' = irs s ir') /\
+  (forall s ir ir' x, owned s -> ir' <> ir -> In x (members (irs s ir')) -> irs (fst (add s ir x)) ir' = irs (fst (discard s ir' x)) ir').
+Proof. exact (conj discard_other_ir_untouched (conj add_other_ir_untouched add_other_ir_discard)). Qed.
+
+(* the repaired ^= (fix 8d2f771): exact whenever the members AFTER the operator -- survivors and newcomers -- carry pairwise
+   distinct UUIDs; a newcomer may carry the UUIDs of a member that leaves (the twin of another load) *)
+Theorem C03_ixor_two_pass_exact : forall s ir args, Inv s ->
+  (forall x, In x args -> NoDup (map fst (sub s x))) ->
+  let final := filter (fun y => negb (mem y args)) (members (irs s ir)) ++
+               filter (fun x => negb (mem x (members (irs s ir)))) (dedup args) in
+  NoDup (map fst (flat_map (sub s) final)) ->
+  Inv (fst (ixor_twopass s ir args)) /\ snd (ixor_twopass s ir args) = true /\
+  (forall x, In x (members (irs (fst (ixor_twopass s ir args)) ir)) <-> In x final).
+Proof. exact ixor_twopass_inv. Qed.
+
+(* the inherited operator (collections.abc.MutableSet.__ixor__, the code before the fix) is NOT: member 1 of IR 1 exchanged for
+   its twin 2 of IR 2, the twin first -- the premise holds before and after, the operator reports success, element 2 is attached,
+   its UUID 100 is not found, and the next detach raises KeyError (defect D20, found by the second red-team round) *)
+Theorem C03_ixor_interleaved_refuted : exists s ir args, Inv s /\ (forall x, In x args -> NoDup (map fst (sub s x))) /\
+  NoDup (map fst (flat_map (sub s) (filter (fun y => negb (mem y args)) (members (irs s ir)) ++
+                                    filter (fun x => negb (mem x (members (irs s ir)))) (dedup args)))) /\
+  ~ exact (fst (ixor_interleaved s ir args)) ir /\
+  snd (ixor_interleaved s ir args) = true /\
+  members (irs (fst (ixor_interleaved s ir args)) ir) = [2] /\
+  In (100, 2) (attached (fst (ixor_interleaved s ir args)) ir) /\
+  lookup (fst (ixor_interleaved s ir args)) ir 100 = None /\
+  snd (discard (fst (ixor_interleaved s ir args)) ir 2) = false.
+Proof. exact ixor_interleaved_refuted. Qed.
+
+(* ... and it WAS right under World.v's assumption (no UUID of a newcomer among the current members of the IR, in particular
+   globally distinct UUIDs): there no IR can tell the two operators apart -- why the World theorems and eleven seeding waves never
+   saw the defect *)
+Theorem C03_ixor_interleaved_right_when_uuids_globally_distinct : forall s ir args, Inv s ->
+  (forall x, In x args -> NoDup (map fst (sub s x))) ->
+  NoDup (map fst (flat_map (sub s) (xor_final s ir args))) ->
+  (forall x, In x args -> ~ In x (members (irs s ir)) -> forall y, In y (members (irs s ir)) ->
+     forall u, In u (map fst (sub s x)) -> ~ In u (map fst (sub s y))) ->
+  Inv (fst (ixor_interleaved s ir args)) /\ snd (ixor_interleaved s ir args) = true /\
+  (forall x, In x (members (irs (fst (ixor_interleaved s ir args)) ir)) <-> In x (members (irs (fst (ixor_twopass s ir args)) ir))) /\
+  (forall u, lookup (fst (ixor_interleaved s ir args)) ir u = lookup (fst (ixor_twopass s ir args)) ir u).
+Proof. exact ixor_interleaved_eq_twopass. Qed.
+
+(* non-vacuity: the twin exchange itself, on the state of the refutation, with the repaired operator *)
+Example C03_twin_example :
+  run_ok (st0 subs6) [TAdd 1 1; TAdd 2 2; TIxor 1 [2; 1]; TDiscard 1 2; TAdd 2 1] /\
+  Inv (fst (ixor_twopass s6 1 [2; 1])) /\ snd (ixor_twopass s6 1 [2; 1]) = true /\
+  members (irs (fst (ixor_twopass s6 1 [2; 1])) 1) = [2] /\
+  lookup (fst (ixor_twopass s6 1 [2; 1])) 1 100 = Some 2 /\
+  lookup (fst (ixor_twopass s6 1 [2; 1])) 1 101 = Some 12 /\
+  snd (discard (fst (ixor_twopass s6 1 [2; 1])) 1 2) = true.
+Proof.
+  split; [|exact ixor_twopass_same_state_fine].
+  cbn [run_ok premise]. repeat split.
+  - vm_compute; repeat (constructor; [cbn; intuition discriminate|]); constructor.
+  - vm_compute. intuition discriminate.
+  - vm_compute; repeat (constructor; [cbn; intuition discriminate|]); constructor.
+  - vm_compute. intuition discriminate.
+  - intros x [<-|[<-|[]]]; vm_compute; repeat (constructor; [cbn; intuition discriminate|]); constructor.
+  - vm_compute; repeat (constructor; [cbn; intuition discriminate|]); constructor.
+  - vm_compute; repeat (constructor; [cbn; intuition discriminate|]); constructor.
+  - vm_compute. intuition discriminate.
+Qed.
+End Twin.
+
 Print Assumptions C03_cache_exact.
 Print Assumptions C03_none_otherwise.
 Print Assumptions C03_reach_is_containment.
@@ -88,3 +196,12 @@ Print Assumptions C03_with_lookups_interleaved.
 Print Assumptions C03_uuid_table_deletions_total.
 Print Assumptions C03_keyerror_exactly_builtin.
 Print Assumptions C03_example.
+Print Assumptions Twin.C03_per_ir_distinct_uuids_suffice.
+Print Assumptions Twin.C03_twin_exact_means.
+Print Assumptions Twin.C03_twin_add.
+Print Assumptions Twin.C03_twin_discard.
+Print Assumptions Twin.C03_twin_no_leak.
+Print Assumptions Twin.C03_ixor_two_pass_exact.
+Print Assumptions Twin.C03_ixor_interleaved_refuted.
+Print Assumptions Twin.C03_ixor_interleaved_right_when_uuids_globally_distinct.
+Print Assumptions Twin.C03_twin_example.
